@@ -25,6 +25,7 @@ type Opts struct {
 	Merge      string // "none" | "eager2" | "eager3" | "default"
 	Faults     []Fault
 	NoMmap     bool
+	NapUnderNumFiles int // PersisterNapUnderNumFiles (0 = default 1000): small values make the persister wait for the merger
 }
 
 // Sys is one incarnation of a writer under the controller.
@@ -65,14 +66,9 @@ func init() {
 		s := curSys
 		curSysMu.Unlock()
 		if s != nil {
-			// only the first writer opened by this system is traced (a second
-			// writer on the same directory is a different object)
-			s.mu.Lock()
-			if s.iw == nil {
-				s.iw = w
-			}
-			mine := s.iw == w
-			s.mu.Unlock()
+			// only the writer opened on this system's directory wrapper is traced
+			// (a second writer on the same path is a different object)
+			mine := w != nil && w.VerifDirectory() == index.Directory(s.Dir)
 			if mine {
 				s.hook(ev, args...)
 			}
@@ -140,6 +136,9 @@ func NewSys(c *Ctl, o Opts) *Sys {
 	}
 	if o.MinMemMerge > 0 {
 		ic.MinSegmentsForInMemoryMerge = o.MinMemMerge
+	}
+	if o.NapUnderNumFiles > 0 {
+		ic.PersisterNapUnderNumFiles = o.NapUnderNumFiles
 	}
 	if o.Merge != "" && o.Merge != "default" {
 		ic.MergePlanOptions = mergeOptions(o.Merge)
